@@ -5,6 +5,7 @@ mod alloc;
 mod util;
 #[path = "gen.rs"]
 mod r#gen;
+mod c04t;
 mod c09;
 mod c10;
 mod c11;
@@ -54,6 +55,7 @@ fn main() {
         "e2" => e2::run(&args),
         "e3" => e3::run(&args),
         "c09" => c09::run(&args),
+        "c04t" => c04t::run(&args),
         "c09regions" => c09::run_regions(&args),
         "c20race" => c20::run(&args),
         "e3child" => e3::run_child(&args),
